@@ -357,7 +357,8 @@ class Renderer:
         toks = list(typ_toks)
         for a in attrs:
             toks += [pu(',')] + a
-        toks += self.dc(force=bool(attrs) or init is not None)
+        # (fparser rejects 'type (t) x' without '::' when the statement is continued inside the parentheses)
+        toks += self.dc(force=bool(attrs) or init is not None or typ_toks[0].t in ('type', 'class'))
         for i, n in enumerate(names):
             if i:
                 toks.append(pu(','))
